@@ -37,3 +37,25 @@ def malformed(impl, key="bins"):
         if not isinstance(x[0], int) or any(not isinstance(y, int) for y in x[1]):
             return f"non-integer sum or unknown item in output {UN.short(impl)}"
     return None
+
+
+def rnp_demo(known, evaluate, prop, pid):
+    """replays the witnesses of the listed rnp findings on the tree under test: the KNOWN-FINDING line is
+    printed only while the implementation still fails exactly like the faithful model (attribution rule)"""
+    lines = []
+    for f in known["findings"]:
+        if pid not in f["properties"] or not f["id"].startswith("rnp-"):
+            continue
+        w = f["witness"]
+        u = part_unit("rnp", w["numbins"], w["items"], fmt="list", cmp="value")
+        oc = evaluate(prop, [u])
+        r, m = oc.impl[0], oc.model[0]
+        if f["id"] == "rnp-float-index":
+            if r.get("exc") == "IndexError" and m is not None and m.get("exc") == "IndexError":
+                lines.append(f["line"])
+        elif f["id"] == "rnp-suboptimal":
+            if "bins" in r and m is not None and isinstance(m.get("bins"), list):
+                s = sorted(x for x, _ in r["bins"])
+                if s == sorted(x for x, _ in m["bins"]) and s[-1] - s[0] == w["returned_difference"] > w["optimal_difference"]:
+                    lines.append(f["line"])
+    return lines
